@@ -5,6 +5,10 @@ Same descriptor family and drawing machinery as C01 (spec/GenData.tla family "c0
 Every drawn case is judged by GenDataJudge (C02_Case: case negative, >= 1 part negative, each negative part present and
 not conforming, each positive part conforming) and every per-descriptor outcome by C02_Outcome (negatable => cases,
 nothing to negate => skipped; asserted only where negatability is unambiguous).
+
+Group "exclusive-bound" (family c02 only): numeric request bodies with exclusiveMinimum / exclusiveMaximum switched on (draft-4 boolean
+spelling in 2.0 / 3.0, numeric in 3.1).  Values inside the open interval conform under the operation's dialect and are reached only through
+rare mutation choices, so the family marks these descriptors cfg.draws = "wide" and the driver takes 300 (quick) / 400 (thorough) draws each.
 """
 from __future__ import annotations
 
@@ -32,7 +36,10 @@ def signature(rule: str, detail: Any, desc: dict, c: Any = None) -> str:
         mislabelled = [t[0] for t in parts if t[1] == "T" and t[2] == "negative"]
         if mislabelled and all(_only_given(c, p_) for p_ in mislabelled):
             return "C02:valid-labelled-negative:only-explicit-values"
-        return "C02:valid-labelled-negative:%s" % cls(t[0] for t in parts if t[1] == "T" and t[2] == "negative")
+        # an exclusive bound on the mislabelled part's own schema is its own input class (the not-valid filter has to read it in the dialect)
+        own = {"bodies": desc.get("bodies")} if mislabelled == ["body"] else {"params": [p for p in desc.get("params", []) if p["loc"] in mislabelled]}
+        excl = sorted(f for f in features(dict(own, dialect=desc["dialect"])) if f.startswith("exclusive-"))
+        return "C02:valid-labelled-negative:%s%s" % (cls(mislabelled), ":" + excl[0] if excl else "")
     if rule == "invalid-labelled-positive":
         kws = sorted({k for ks in kw_detail(detail).values() for k in ks})
         return "C02:invalid-labelled-positive:%s:{%s}:%s" % (cls(t[0] for t in parts if t[1] == "F" and t[2] == "positive"), ",".join(kws), primary(features(desc)))
@@ -48,9 +55,12 @@ def signature(rule: str, detail: Any, desc: dict, c: Any = None) -> str:
 
 def run(ctx: Ctx) -> Outcome:
     n = 8 if ctx.quick else 15
+    wide = 300 if ctx.quick else 400
     counter = [0]
 
     def jobs_for(d: dict) -> list[dict]:
+        if (d.get("cfg") or {}).get("draws") == "wide":      # the family marks descriptors whose property hinges on rare mutation choices
+            return [{"desc": d, "mode": "negative", "modes": ["negative"], "n": wide, "seed": ctx.seed}]
         jobs = [{"desc": d, "mode": "negative", "modes": ["negative"], "n": n, "seed": ctx.seed}]
         counter[0] += 1
         if counter[0] % 3 == 0:      # the second mode list for every 3rd descriptor (negative draws cost ~80 ms each)
@@ -59,8 +69,9 @@ def run(ctx: Ctx) -> Outcome:
 
     return run_property(ctx, "C02", "c02", jobs_for, str(n), signature,
                         "every operation descriptor reachable in GenData.tla family c02 (TLC-enumerated) x modes {[negative], [positive, negative]} x "
-                        "%d seeded Hypothesis draws from as_strategy(NEGATIVE) (mutation choices are drawn, not enumerated); every distinct drawn case "
-                        "and every outcome (cases / skipped / unsat) is judged; non-trivial = some present part got a definite verdict" % n)
+                        "%d seeded Hypothesis draws from as_strategy(NEGATIVE) (%d for the descriptors the family marks cfg.draws = wide: numeric bodies "
+                        "with exclusive bounds, modes [negative]; mutation choices are drawn, not enumerated); every distinct drawn case "
+                        "and every outcome (cases / skipped / unsat) is judged; non-trivial = some present part got a definite verdict" % (n, wide))
 
 
 def replay(ctx: Ctx, data: dict) -> Outcome:
